@@ -183,13 +183,15 @@ fn take_small(est: usize) {
 
 fn take_21(est: usize) -> usize {
     let t = id2(0, 0, 0);
-    let mut c = ClosestNodes { target: Id::from(t), nodes: Vec::with_capacity(21) };
+    // stack-backed node buffer (read-only here): CBMC folds loops over stack slices
+    let mut slab: [core::mem::MaybeUninit<Node>; 21] = unsafe { core::mem::MaybeUninit::uninit().assume_init() };
     let far: u8 = kani::any(); // how far the farthest nodes are: decides where the scan stops
     let mut k = 0usize;
     while k < 21 {
-        c.nodes.push(node(id2(if k < 10 { 0 } else { far }, k as u8, 0), 20, k as u8));
+        slab[k].write(node(id2(if k < 10 { 0 } else { far }, k as u8, 0), 20, k as u8));
         k += 1;
     }
+    let c = ClosestNodes { target: Id::from(t), nodes: unsafe { Vec::from_raw_parts(slab.as_mut_ptr() as *mut Node, 21, 21) } };
     let subnets: usize = kani::any();
     kani::assume(subnets <= 2);
     let r = c.take_until_secure(est, subnets);
@@ -229,6 +231,11 @@ pub(crate) fn push_raw(c: &mut ClosestNodes, n: Node) {
     c.nodes.push(n);
 }
 
+/// an accumulator around a given (e.g. stack-backed) node buffer, already in order
+pub(crate) fn with_nodes(target: Id, nodes: Vec<Node>) -> ClosestNodes {
+    ClosestNodes { target, nodes }
+}
+
 /// quick-tier instance of the ">= min(20, available)" clause at the boundary: 21 concrete nodes, a
 /// size estimate so large that the distance criterion is met at once, no subnet requirement — the
 /// scan stops immediately, and the floor of 20 must still apply
@@ -237,12 +244,13 @@ pub(crate) fn push_raw(c: &mut ClosestNodes, n: Node) {
 #[kani::stub(Id::is_valid_for_ip, stub_is_valid_for_ip)]
 fn c11_take_until_secure_keeps_the_floor_of_20_when_the_scan_stops_at_once() {
     let t = id2(0, 0, 0);
-    let mut c = ClosestNodes { target: Id::from(t), nodes: Vec::with_capacity(21) };
+    let mut slab: [core::mem::MaybeUninit<Node>; 21] = unsafe { core::mem::MaybeUninit::uninit().assume_init() };
     let mut k = 0usize;
     while k < 21 {
-        c.nodes.push(node(id2(0xFF, k as u8, 0), 20, k as u8));
+        slab[k].write(node(id2(0xFF, k as u8, 0), 20, k as u8));
         k += 1;
     }
+    let c = ClosestNodes { target: Id::from(t), nodes: unsafe { Vec::from_raw_parts(slab.as_mut_ptr() as *mut Node, 21, 21) } };
     let r = c.take_until_secure(usize::MAX, 0);
     assert!(r.as_ptr() == c.nodes.as_ptr(), "C11: a prefix of the accumulator's order");
     assert!(r.len() >= 20 && r.len() <= 21, "C11: at least min(20, available), whatever the scan decided");
